@@ -1,0 +1,35 @@
+//go:build verif
+
+package proxycore
+
+import "sync/atomic"
+
+// Verification hooks (build tag `verif`). Nothing in this file is compiled into a normal build.
+
+var verifHook atomic.Value // func(point string, args ...interface{})
+
+// SetVerifHook installs the hook sink. A nil sink disables the hooks.
+func SetVerifHook(f func(point string, args ...interface{})) {
+	if f == nil {
+		f = func(string, ...interface{}) {}
+	}
+	verifHook.Store(f)
+}
+
+func vhook(point string, args ...interface{}) {
+	if f, ok := verifHook.Load().(func(string, ...interface{})); ok {
+		f(point, args...)
+	}
+}
+
+// VerifSetRoundRobinCounter presets the round-robin counter of a load balancer created by
+// NewRoundRobinLoadBalancer (call before the balancer is shared between goroutines).
+func VerifSetRoundRobinCounter(lb LoadBalancer, v uint64) bool {
+	if l, ok := lb.(*roundRobinLoadBalancer); ok {
+		verifSetCounter(&l.index, v)
+		return true
+	}
+	return false
+}
+
+func verifSetCounter[T uint32 | uint64](p *T, v uint64) { *p = T(v) }
